@@ -161,6 +161,8 @@ class RefMatcher:
             return self.bad(t, f"layout string `{name}` is {w} bytes wide; the code uses {norm(t.width)}")
         if self.side == "w":
             self.note_attr(name, t.value, t)
+        else:
+            self.ph_at = getattr(self, "ph_at", []) + [(name, t.ph)]
         self.ok(t, f"{name}: str[{w}]")
 
     def m_d(self, r, t):
@@ -168,6 +170,8 @@ class RefMatcher:
             return self.bad(t, f"layout date `{r[1]}` is `{show([t])[0].strip()}` in the code")
         if self.side == "w":
             self.note_attr(r[1], t.value, t)
+        else:
+            self.ph_at = getattr(self, "ph_at", []) + [(r[1], t.ph)]
         self.ok(t, f"{r[1]}: date32")
 
     def m_raw(self, r, t):
@@ -392,6 +396,47 @@ class RefMatcher:
             v = v.value
         if isinstance(v, ast.Attribute) and norm(v.value) == "self":
             self.attr_at.append((refname, v.attr, t))
+
+    def reader_attr_of(self, ph):
+        """attribute of the decoded object that receives exactly placeholder `ph` (constructor parameter or install)."""
+        from .layout import Construct, Install, walk_terms
+        from . import facts
+        for t in walk_terms(self.u.rterms):
+            if isinstance(t, Install) and norm(t.value) == ph:
+                return t.attr
+            if isinstance(t, Construct):
+                summ = facts.init_summary(self.cd.prog, t.cls)
+                amap = dict(zip(summ.params, t.args))
+                amap.update(t.kwargs)
+                for p, a in amap.items():
+                    a0 = a
+                    # Enum(ph) / ph + c wrappers
+                    if ph in {n.id for n in ast.walk(a0) if isinstance(n, ast.Name)} and len([n for n in ast.walk(a0) if isinstance(n, ast.Name) and n.id.startswith("_R")]) == 1:
+                        for attr, v in summ.attrs.items():
+                            if isinstance(v, ast.Name) and v.id == p:
+                                return attr
+        return None
+
+    def reader_swapped(self):
+        out = []
+        if self.side != "r":
+            return out
+        pairs = []
+        for name, ph in self.count_val.items():
+            if isinstance(ph, str):
+                a = self.reader_attr_of(ph)
+                if a:
+                    pairs.append((name, a))
+        for name, ph in getattr(self, "ph_at", []):
+            a = self.reader_attr_of(ph)
+            if a:
+                pairs.append((name, a))
+        names = {nname(n) for n in self.ref_names}
+        attrs_present = {nname(a) for _, a in pairs}
+        for refname, attr in pairs:
+            if nname(attr) != nname(refname) and nname(attr) in names and nname(refname) in attrs_present:
+                out.append((refname, attr))
+        return out
 
     def swapped(self):
         """A writer attribute whose name is the name of ANOTHER field of this record (swap on both sides)."""
